@@ -83,6 +83,15 @@ add("C26", "TLC exhaustive on SampleListFS.tla and StreamStat.tla + replay of TL
     "average and the HDF5 export are compared with them.",
     TRUST + "the simulated communicator (no libmpi in the sandbox).")
 
+add("C22", "TLC exhaustive on Distribute.tla + trace validation of the per-rank draw sequences of the real code under a simulated communicator (DistributeTrace.tla) + bit-identity of results over 1..6/7 tasks",
+    "The distribution rule of (mirrored) samples over tasks (shareRange, one seed sequence per unmirrored sample, redraw rule for an odd first index) is "
+    "specified in Distribute.tla; TLC checks that the global (seed, sign) list equals the single-task one and that the shares partition the indices for "
+    "n<=4/6 samples and T<=6/8 tasks including T > samples. The real nifty.cl code runs under a process-per-rank communicator: the contexts entered by "
+    "draw_samples on every rank are recorded through the RNG recorder and validated by DistributeTrace.tla; SampledKLEnergy (value, gradient, metric, "
+    "samples, statistics, at()) and full optimize_kl runs (sampled, MAP, constants, point estimates, geoVI, output directory, resume) must be "
+    "bit-identical on every rank for every task count.",
+    TRUST + "the simulated communicator with mpi4py's pickling semantics (no libmpi in the sandbox; the property text asks for real MPI runs).")
+
 
 def main():
     props = [json.loads(l) for l in open(os.path.join(HERE, "properties.jsonl"))]
